@@ -80,6 +80,7 @@ fn roots() -> Vec<RE> {
         RE::Sym("s".into()),
         RE::Sym("S".into()),
         RE::Sym("zz".into()),
+        RE::Sym("a".into()),
         RE::call("f", RE::Val(RV::Int(1))),
         RE::call("zz", RE::Val(RV::Int(1))),
     ]
@@ -136,7 +137,9 @@ fn symbol_tables() -> Vec<(&'static str, BTreeMap<String, RV>)> {
     vec![
         ("empty", BTreeMap::new()),
         ("s", [("s".to_string(), s_val.clone())].into_iter().collect()),
-        ("s+S", [("s".to_string(), s_val), ("S".to_string(), big_s)].into_iter().collect()),
+        ("s+S", [("s".to_string(), s_val.clone()), ("S".to_string(), big_s.clone())].into_iter().collect()),
+        // a symbol named like an input field: `:a.x` and `a.x` must stay apart
+        ("s+S+a", [("s".to_string(), s_val), ("S".to_string(), big_s), ("a".to_string(), instantiate(&deep, &mut n))].into_iter().collect()),
     ]
 }
 
